@@ -19,8 +19,12 @@
               AFTER its read; the last element is read after everything has stopped
    which 5  table sequence    case = (table ...)              obs = ((#filebytes loadres) ...)   one offsetDB instance
    which 6  load after crash  case = (target old new cp override names)   obs = (oldb #newb dir1 dir2 load)   see c07_crashload
-   which 7  loaders' go/ast   case = (#file #recv #load #save)   obs = ((#dest ...) ((#fn #path) ...))   see c07_loadast *)
-From Verif Require Import Base.Sx Base.GoSem Model.OffsetsFmt Model.FsCrash Model.OffsetsSnap Gen.SaveProtocol.
+   which 7  loaders' go/ast   case = (#file #recv #load #save)   obs = ((#dest ...) ((#fn #path) ...))   see c07_loadast
+   which 8  = which 4 with persistence_mode sync: the saves are the ones inside the real commit (judged by c07_overlap)
+   which 9  = which 3 with the saves of the real async saver goroutine and of the real stop() (judged by c07_concurrent)
+   which 10 provider history  case = (sync op0 ((#name size) ...) (op ...))   obs = ((res loadres) ...)   see c07_provider
+   which 11 error paths       case = (0 mode) | (1 kvs) | (2) | (3 op0 #pre #post nfiles)                 see c07_errors *)
+From Verif Require Import Base.Sx Base.GoSem Model.OffsetsFmt Model.FsCrash Model.OffsetsSnap Model.OffsetsProv Gen.SaveProtocol.
 
 (* ---- decoding ------------------------------------------------------------------------------------ *)
 Definition as_N (s : sx) : option N :=
@@ -516,6 +520,131 @@ Definition c07_loadast (case obs : sx) : verdict :=
   | _, _ => BadCase
   end.
 
+(* ---- which 10: a sequential history on a real jobProvider over real files (Model/OffsetsProv.v) --------------
+   case = (sync op0 ((#name size) ...) (op ...))     obs = ((res loadres) ...) one per op
+   op = (0 fi kind seq #stream off) commit | (1) save | (2 fi pos seq) worker progress | (3 fi size) size change + write
+        notification | (4 fi) done | (5 fi remove) maintenance | (6 crash) stop / death + new provider | (7 fi ts) EOF time
+   rows of a loadres: file name without its directory, source id = index of the file.
+   Predicate (the property): every operation returned, and after every operation the offsets file loads back to a
+   complete snapshot of the job table of that or an earlier moment of the history (never anything else, never a later one).
+   Agreement: results and loaded tables are exactly the model's. *)
+Fixpoint as_pfiles (i : N) (l : list sx) : option (list pfile) :=
+  match l with
+  | [] => Some []
+  | SL [SB n; SZ sz] :: r =>
+      match as_pfiles (N.succ i) r with
+      | Some fs => Some ({| pf_id := i; pf_name := n; pf_size := sz; pf_disk := true |} :: fs)
+      | None => None
+      end
+  | _ => None
+  end.
+
+Definition as_pop (s : sx) : option pop :=
+  match s with
+  | SL [SZ 0; fi; SZ kind; SZ seq; SB st; SZ off] => option_map (fun f => PCommit f kind seq st off) (as_N fi)
+  | SL [SZ 1] => Some PSave
+  | SL [SZ 2; fi; SZ pos; SZ seq] => option_map (fun f => PProgress f pos seq) (as_N fi)
+  | SL [SZ 3; fi; SZ size] => option_map (fun f => PTrunc f size) (as_N fi)
+  | SL [SZ 4; fi] => option_map PDone (as_N fi)
+  | SL [SZ 5; fi; SZ rm] => option_map (fun f => PMaint f (Z.eqb rm 1)) (as_N fi)
+  | SL [SZ 6; SZ crash] => Some (PRestart (Z.eqb crash 1))
+  | SL [SZ 7; fi; SZ t] => option_map (fun f => PTs f t) (as_N fi)
+  | _ => None
+  end.
+
+Definition as_hobs (s : sx) : option (Z * oload) :=
+  match s with SL [SZ r; lr] => Some (r, as_load lr) | _ => None end.
+
+(* (predicate, agreement) *)
+Fixpoint hist_judge (ms : list (Z * pstate)) (os : list (Z * oload)) : bool * bool :=
+  match ms, os with
+  | [], [] => (true, true)
+  | (z, st) :: mr, (r, o) :: or =>
+      let '(p, a) := hist_judge mr or in
+      (p && existsb (fun es => load_match (Ok es) o) (snap (p_jobs st) :: p_hist st),
+       a && Z.eqb z r && load_match (Ok (p_file st)) o)
+  | _, _ => (false, false)
+  end.
+
+Definition c07_provider (case obs : sx) : verdict :=
+  match case, obs with
+  | SL [SZ sync; SZ op0; SL files; SL ops], SL items =>
+      match as_pfiles 0%N files, opt_map as_pop ops, opt_map as_hobs items with
+      | Some fs, Some pops, Some hobs =>
+          let cfg := {| pc_sync := Z.eqb sync 1; pc_op0 := op0 |} in
+          let ms := prun cfg (pinit cfg fs) pops in
+          let '(p, a) := hist_judge ms hobs in
+          judge p a (SL (map (fun zs : Z * pstate => SL [SZ (fst zs); sx_of_load (Ok (p_file (snd zs)))]) ms))
+      | _, _, _ => BadCase
+      end
+  | _, _ => BadCase
+  end.
+
+(* ---- which 11: error paths of the loaders and of the generic saver ---------------------------------------------
+   (0 mode): offset.LoadYAML of a path that cannot be read      obs = (code nkeys)   code 0 nil, 1 error, 2 panic
+             predicate: a loader that could not read does not report success;  model: the error, nothing loaded
+   (1 kvs):  offset.SaveYAML of a value the encoder rejects over a good file      obs = (code #before #after loaded)
+             = the generated protocol with a write that fails before it transfers a byte: the reader of the model
+             sees the old file; predicate: an unsuccessful save never replaces a good file (bytes and loaded value)
+   (2):      offsetDB.load of an existing, unreadable file      obs = loadres
+             predicate: it does not hand back a table;  model: the "can't read offset file" panic
+   (3 op0 #pre #post nf): a provider starts (offsets_op op0) on the file pre ++ "0" ++ post it did not write, nf = 0 | 1
+             watched file (source id 0); then stop()            obs = (code loadres)   code 0 | 7 start panicked
+             model: offsets_op continue and the model parser rejects the content, or lists the watched file without
+             streams: start panics and the file stays as it was; otherwise the job takes exactly the loaded offsets
+             and stop() writes them back (sources without a watched file are dropped)
+             predicate: a start that panicked left the file untouched; one that returned left a loadable file *)
+Definition c07_errors (case obs : sx) : verdict :=
+  match case, obs with
+  | SL [SZ 0; SZ _], SL [SZ code; SZ n] =>
+      judge (negb (Z.eqb code 0)) (Z.eqb code 1 && Z.eqb n 0) (SL [SZ 1; SZ 0])
+  | SL [SZ 1; _], SL [SZ code; SB before; SB after; SZ loaded] =>
+      let evs := run_proto [] generic_save_protocol [None; Some 0%nat] fs0 in
+      let expected := reader_sees before (fs_run [] fs0 evs) in
+      judge (bytes_eqb after before && Z.eqb loaded 1)
+            (Z.eqb code 1 && bytes_eqb after expected)
+            (SL [SZ 1; SB before; SB expected; SZ 1])
+  | SL [SZ 3; SZ op0; SB pre; SB post; SZ nf], SL [SZ code; lr] =>
+      let content := pre ++ dec_N 0 ++ post in
+      let fs := if Z.eqb nf 1 then [{| pf_id := 0%N; pf_name := [97; 46; 108; 111; 103]%N; pf_size := 10; pf_disk := true |}] else [] in
+      let cfg := {| pc_sync := false; pc_op0 := op0 |} in
+      let o := as_load lr in
+      let untouched := load_match (parse content) o in               (* start refused: the file is as it was *)
+      let refused := judge (if Z.eqb code 7 then untouched else match o with OLoaded _ => true | _ => false end)
+                           (Z.eqb code 7 && untouched) (SL [SZ 7; sx_of_load (parse content)]) in
+      match (if Z.eqb op0 0 then parse content else Ok []) with
+      | Ok es =>
+          if Z.eqb op0 0 && existsb (fun f => match lookup_entry es (pf_id f) with
+                                              | Some e => negb (nonempty (estreams e))
+                                              | None => false
+                                              end) fs
+          then refused                                                  (* initJobOffset: "no streams in source" *)
+          else
+            (* started: the jobs took the loaded offsets; stop() saved them; a timestamp the file did not list is the
+               time of the load (any value) *)
+            let expected :=
+              map (fun j => {| efile := pj_name j; esid := pj_id j;
+                               ets := match lookup_entry es (pj_id j) with Some e => ets e | None => Some 0 end;
+                               estreams := pj_offs j |})
+                  (filter (fun j => nonempty (pj_offs j)) (start_jobs cfg es fs)) in
+            (* outside the property's domain (offsets are 0 .. 2^63-1; commit never stores a negative one): the parser
+               accepts a negative offset, the job takes it, save prints it as uint64 (Model/OffsetsFmt.v: off_u64) and
+               that number is beyond what the parser accepts - the model follows the code, the predicate is silent *)
+            if existsb (fun e => existsb (fun kv => snd kv <? 0) (estreams e)) expected
+            then judge true (Z.eqb code 0 && match o with OErr => true | _ => false end) (SL [SZ 0; SL [SZ 1]])
+            else
+            judge (match o with OLoaded _ => Z.eqb code 0 | _ => Z.eqb code 7 && untouched end)
+                  (Z.eqb code 0 && load_match (Ok expected) o) (SL [SZ 0; sx_of_load (Ok expected)])
+      | _ => refused                                                    (* start: "can't load offsets" *)
+      end
+  | SL [SZ 2], lr =>
+      match as_load lr with
+      | OBad => BadCase
+      | o => judge (match o with OLoaded _ => false | _ => true end) (match o with OPanic => true | _ => false end) (SL [SZ 2])
+      end
+  | _, _ => BadCase
+  end.
+
 Definition c07_entry (which : Z) (case obs : sx) : verdict :=
   match which with
   | 5 => c07_sequence case obs
@@ -526,5 +655,9 @@ Definition c07_entry (which : Z) (case obs : sx) : verdict :=
   | 2 => c07_fault case obs
   | 3 => c07_concurrent case obs
   | 4 => c07_overlap case obs
+  | 8 => c07_overlap case obs
+  | 9 => c07_concurrent case obs
+  | 10 => c07_provider case obs
+  | 11 => c07_errors case obs
   | _ => BadCase
   end.
